@@ -57,7 +57,7 @@ class Scheduler:
         self.enabled = True
 
     def lookup(self, model, obj_ref):
-        fn = getattr(model, "_tx_filename", None) or self.world.main
+        fn = getattr(model, "_tx_filename", None) or getattr(self, "anon_file", None) or self.world.main
         return self.by_pos.get((fn, obj_ref.position))
 
     def decide(self, ref):
